@@ -32,12 +32,123 @@ type obj struct {
 	writer      int // gateway index that acknowledged the upload
 	epoch       int // restart epoch of the upload
 	opIdx       int
-	prev        *obj              // state of the key before this upload (to recognise stale leftovers)
-	prevTags    map[string]string // tag set of the key before the last tag-changing write
-	history     [][]byte          // bodies this key held before (oldest first)
-	afterMarker bool              // the key held a delete marker at some time before this upload (versioning-enabled bucket)
-	seenCks     map[string]bool   // wrong checksum values already reported for this object
-	oldCks      map[string]bool   // wrong checksum values reported for earlier objects at this key
+	overwrote   bool            // the key held an object (or its leftovers) before this upload
+	afterMarker bool            // the key held a delete marker at some time before this upload (versioning-enabled bucket)
+	seenCks     map[string]bool // wrong checksum values already reported for this object
+	hist        *keyHist        // everything earlier objects at this key held (to recognise stale leftovers)
+}
+
+// keyHist collects, per key, the values earlier objects at that key had (as uploaded, and as
+// observed when a leftover was reported and taken over). A value a read path returns although
+// the current upload did not supply it is a "stale" leftover when it is found here.
+type keyHist struct {
+	hdr    map[string]map[string]bool // content header name -> values
+	meta   map[string]map[string]bool // lower-case metadata name -> values
+	tags   []map[string]string
+	bodies [][]byte
+	etags  map[string]bool
+	cks    map[string]bool // wrong checksum values seen earlier
+}
+
+func newHist() *keyHist {
+	return &keyHist{hdr: map[string]map[string]bool{}, meta: map[string]map[string]bool{}, etags: map[string]bool{}, cks: map[string]bool{}}
+}
+
+// absorb adds the state of an object that is about to be replaced.
+func (h *keyHist) absorb(o *obj) {
+	if o == nil {
+		return
+	}
+	for _, name := range contentHdrs {
+		if v := *o.contentField(name); v != "" {
+			if h.hdr[name] == nil {
+				h.hdr[name] = map[string]bool{}
+			}
+			h.hdr[name][v] = true
+		}
+	}
+	for _, a := range o.ceAlt {
+		if a != "" {
+			if h.hdr["Content-Encoding"] == nil {
+				h.hdr["Content-Encoding"] = map[string]bool{}
+			}
+			h.hdr["Content-Encoding"][a] = true
+		}
+	}
+	for k, v := range o.meta {
+		if h.meta[k] == nil {
+			h.meta[k] = map[string]bool{}
+		}
+		for _, e := range strings.Split(v, "\x1f") {
+			h.meta[k][e] = true
+		}
+	}
+	h.absorbTags(o.tags)
+	h.absorbTags(o.tagsLiteral)
+	known := false
+	for _, b := range h.bodies {
+		if bytes.Equal(b, o.body) {
+			known = true
+		}
+	}
+	if !known {
+		h.bodies = append(h.bodies, o.body)
+	}
+	h.etags[o.etag] = true
+	for _, e := range o.etagAlt {
+		h.etags[e] = true
+	}
+	for v := range o.seenCks {
+		h.cks[v] = true
+	}
+}
+
+func (h *keyHist) absorbTags(t map[string]string) {
+	if len(t) == 0 {
+		return
+	}
+	for _, e := range h.tags {
+		if mapsEqual(e, t) {
+			return
+		}
+	}
+	h.tags = append(h.tags, copyMap(t))
+}
+
+func (h *keyHist) hadHdr(name, v string) bool { return h != nil && v != "" && h.hdr[name][v] }
+func (h *keyHist) hadMeta(k, v string) bool   { return h != nil && h.meta[k][v] }
+func (h *keyHist) hadTags(t map[string]string) bool {
+	if h == nil || len(t) == 0 {
+		return false
+	}
+	for _, e := range h.tags {
+		if mapsEqual(e, t) {
+			return true
+		}
+	}
+	return false
+}
+func (h *keyHist) hadBody(b []byte) bool {
+	if h == nil {
+		return false
+	}
+	for _, e := range h.bodies {
+		if bytes.Equal(e, b) {
+			return true
+		}
+	}
+	return false
+}
+func (h *keyHist) hadLen(n string) bool {
+	if h == nil {
+		return false
+	}
+	for _, e := range h.bodies {
+		if strconv.Itoa(len(e)) == n {
+			return true
+		}
+	}
+	return false
 }
 
 func (o *obj) snapshot() *obj {
@@ -45,7 +156,6 @@ func (o *obj) snapshot() *obj {
 		return nil
 	}
 	c := *o
-	c.prev, c.prevTags = nil, nil
 	c.seenCks = copyBoolMap(o.seenCks)
 	c.meta = copyMap(o.meta)
 	c.tags = copyMap(o.tags)
@@ -174,7 +284,7 @@ func cmpHeaders(o *obj, h http.Header, isGet, adopt bool, observe func(string)) 
 	}
 	// length
 	if cl := h.Get("Content-Length"); cl != strconv.Itoa(len(o.body)) {
-		ds = append(ds, diff{"content-length" + stale(o.prev != nil && cl == strconv.Itoa(len(o.prev.body))), strconv.Itoa(len(o.body)), cl})
+		ds = append(ds, diff{"content-length" + stale(o.hist.hadLen(cl)), strconv.Itoa(len(o.body)), cl})
 	}
 	// ETag
 	et := hv(h, "Etag")
@@ -185,7 +295,7 @@ func cmpHeaders(o *obj, h http.Header, isGet, adopt bool, observe func(string)) 
 		}
 	}
 	if !okE {
-		ds = append(ds, diff{"etag" + stale(o.prev != nil && et != "" && et == o.prev.etag), o.etag, et})
+		ds = append(ds, diff{"etag" + stale(o.hist != nil && et != "" && o.hist.etags[et]), o.etag, et})
 		if adopt {
 			o.etag, o.etagAlt = et, nil
 		}
@@ -217,11 +327,7 @@ func cmpHeaders(o *obj, h http.Header, isGet, adopt bool, observe func(string)) 
 		if ok {
 			continue
 		}
-		var pv string
-		if o.prev != nil {
-			pv = *o.prev.contentField(name)
-		}
-		ds = append(ds, diff{strings.ToLower(name) + stale(o.prev != nil && pv != "" && got == pv), *f, got})
+		ds = append(ds, diff{strings.ToLower(name) + stale(o.hist.hadHdr(name, got)), *f, got})
 		if adopt {
 			*f = got
 			if name == "Content-Type" && isDefaultCT(got) {
@@ -265,7 +371,7 @@ func cmpHeaders(o *obj, h http.Header, isGet, adopt bool, observe func(string)) 
 			continue
 		}
 		for _, g := range rest {
-			if o.prevHas(k, g) {
+			if o.hist.hadMeta(k, g) {
 				extraStale = append(extraStale, k)
 			} else {
 				extraOther = append(extraOther, k)
@@ -277,7 +383,7 @@ func cmpHeaders(o *obj, h http.Header, isGet, adopt bool, observe func(string)) 
 			continue
 		}
 		for _, g := range vs {
-			if o.prevHas(k, g) {
+			if o.hist.hadMeta(k, g) {
 				extraStale = append(extraStale, k)
 			} else {
 				extraOther = append(extraOther, k)
@@ -316,24 +422,6 @@ func cmpHeaders(o *obj, h http.Header, isGet, adopt bool, observe func(string)) 
 	return ds
 }
 
-// prevHas: did the previous object at this key carry metadata k with value g
-// (an adopted multi-valued leftover is stored joined with \x1f)?
-func (o *obj) prevHas(k, g string) bool {
-	if o.prev == nil {
-		return false
-	}
-	v, ok := o.prev.meta[k]
-	if !ok {
-		return false
-	}
-	for _, e := range strings.Split(v, "\x1f") {
-		if e == g {
-			return true
-		}
-	}
-	return false
-}
-
 func cmpChecksums(o *obj, get func(algo string) string, ctype string, observe func(string)) []diff {
 	var ds []diff
 	for _, a := range s3c.Algos {
@@ -348,18 +436,20 @@ func cmpChecksums(o *obj, get func(algo string) string, ctype string, observe fu
 		want := s3c.Checksum(a, o.body)
 		if v != want {
 			st := ""
-			if o.oldCks[v] {
-				st = "-stale"
+			if o.hist != nil {
+				if o.hist.cks[v] {
+					st = "-stale"
+				}
+				for _, old := range o.hist.bodies {
+					if v == s3c.Checksum(a, old) {
+						st = "-stale"
+					}
+				}
 			}
 			if o.seenCks == nil {
 				o.seenCks = map[string]bool{}
 			}
 			o.seenCks[v] = true
-			for _, old := range o.history {
-				if v == s3c.Checksum(a, old) {
-					st = "-stale"
-				}
-			}
 			// the checksum of zero bytes for a non-empty object; when an earlier object at the key was empty this
 			// is ambiguous with a leftover - an in-place copy cannot inherit leftovers it did not have before
 			if len(o.body) > 0 && v == s3c.Checksum(a, nil) && (st == "" || strings.HasPrefix(o.enc, "selfcopy")) {
@@ -381,7 +471,7 @@ func bodyDiff(want, got []byte) string {
 
 func bodyKind(o *obj, got []byte) string {
 	switch {
-	case o.prev != nil && bytes.Equal(got, o.prev.body):
+	case o.hist.hadBody(got):
 		return "body-stale"
 	case len(got) > len(o.body) && bytes.Equal(got[:len(o.body)], o.body):
 		return "body-padded"
